@@ -1134,7 +1134,7 @@ func rC20Sources(w *World, r *Report) {
 				n := short(callee)
 				ok := c20AllowedPkgs[pkg]
 				switch n {
-				case "os.Getenv", "path/filepath.Base", "os.Exit":
+				case "os.Getenv", "os.LookupEnv", "path/filepath.Base", "os.Exit":
 					ok = true
 				}
 				if _, isLog := loggerCall(x); isLog {
